@@ -159,11 +159,29 @@ def _counts(acl):
     return [r.match_count if r is not None else None for r in acl.acl] + [acl.implicit_rule.match_count]
 
 
+_WITNESS = {}
+
+
+def _witness(implicit):
+    """A second list of the same process with the same implicit action and one catch-all rule: its counters are looked at after
+    every verdict of the list under evaluation ('exactly the deciding rule' leaves every other list's counters alone)."""
+    if implicit not in _WITNESS:
+        w = mk_acl(implicit, 5)
+        add_real(w, 0, ("PERMIT", "udp", "10.9.9.9", None, None, None, None, None))
+        _WITNESS[implicit] = w
+    return _WITNESS[implicit]
+
+
 def eval_config(item):
     """item = (max_rules, implicit, ((pos, rule), ...)). Returns (n_verdicts, n_nontrivial, violations)."""
     max_rules, implicit, placed = item
     pkts, frames = _frames()
+    wit = _witness(implicit)
+    wit0 = _counts(wit)
     acl = mk_acl(implicit, max_rules)
+    fresh = _counts(acl)
+    if any(c for c in fresh if c):
+        return 0, 0, [violation("hit_counter", "counter:fresh-list-not-zero", "a newly built list (implicit %s) starts with counters %s" % (implicit, fresh))]
     slots = [None] * (max_rules - 1)
     for pos, rule in placed:
         add_real(acl, pos, rule)
@@ -194,6 +212,11 @@ def eval_config(item):
                                        "rules=%s packet=%s: counter of slot %s went %s -> %s, deciding slot %s" % (
                                            placed, pkt, i, b, a, exp_pos)))
                 break
+        if _counts(wit) != wit0:
+            viols.append(violation("hit_counter", "counter:another-list-changed",
+                                   "rules=%s packet=%s: the verdict of this list changed the counters of ANOTHER list %s -> %s" % (
+                                       placed, pkt, wit0, _counts(wit))))
+            wit0 = _counts(wit)
     return len(frames), nontrivial, viols[:5]
 
 
@@ -219,17 +242,18 @@ OPS_RULES = [
 class AclOps(engine.Adapter):
     """State = contents of the ACL of a real Router (request/action modes) or a bare AccessControlList (api mode)."""
 
-    def __init__(self, mode, max_rules=5):
+    def __init__(self, mode, max_rules=5, init=()):
         self.mode = mode
+        self.init = [tuple(e) for e in init]  # events applied by build(): a list that already holds rules and has judged packets
         self.max_rules = max_rules if mode == "api" else 25
-        self.name = "c07-ops-%s" % mode
+        self.name = "c07-ops-%s%s" % (mode, "-i%d" % len(self.init) if self.init else "")
         n = self.max_rules - 1
         self.positions = [-1, 0, 1, n - 1, n, n + 1]
         self.pkts = [("tcp", "10.0.1.5", "10.0.2.5", 1234, 80), ("udp", "10.0.1.200", "10.0.2.5", 1234, 21),
                      ("icmp", "10.0.2.5", "10.0.1.5", None, None)]
 
     def params(self):
-        return {"mode": self.mode, "max_rules": self.max_rules}
+        return {"mode": self.mode, "max_rules": self.max_rules, "init": [list(e) for e in self.init]}
 
     def build(self):
         class S:
@@ -249,6 +273,8 @@ class AclOps(engine.Adapter):
             s.ref[22] = ("PERMIT", None, None, None, None, None, 219, 219)
             s.ref[23] = ("PERMIT", "icmp", None, None, None, None, None, None)
         s.counts = {}
+        for ev in self.init:
+            self.apply(s, ev)
         return s
 
     def menu(self, s):
@@ -364,7 +390,7 @@ class AclOps(engine.Adapter):
 
 
 def make_adapter(params):
-    return AclOps(params["mode"], params.get("max_rules", 5))
+    return AclOps(params["mode"], params.get("max_rules", 5), params.get("init", ()))
 
 
 def replay(doc):
@@ -487,8 +513,10 @@ def run(tier, is_known):
     # operation sequences
     per = []
     states = trans = 0
-    for mode, depth in (("api", 5 if thorough else 3), ("req", 4 if thorough else 2), ("act", 4 if thorough else 2)):
-        ad = AclOps(mode)
+    USED = [("add", 0, 0), ("add", 1, 2), ("packets",)]  # start state: two rules in place, every packet judged once
+    for mode, depth, init in (("api", 5 if thorough else 3, ()), ("req", 4 if thorough else 2, ()), ("act", 4 if thorough else 2, ()),
+                              ("api", 5 if thorough else 3, USED), ("req", 4 if thorough else 3, USED)):
+        ad = AclOps(mode, init=init)
         r = engine.bfs(ad, depth, state_budget=200000, time_budget=1200 if thorough else 40, is_known=is_known)
         viols += r.violations
         states += r.states
